@@ -193,6 +193,20 @@ def drive(t, order, i):
         o3 = OBDD(sobdd)
         check_equal('c18.print_obdd', dict(case, printed=sobdd), o3, o,
                     order, 'OBDD(str(o)) == o')
+        if i % 3 == 0:
+            # print / read back twice, and the text with irregular blanks
+            o5 = OBDD(str(OBDD(str(o3))))
+            check_equal('c18.print_obdd', dict(case, printed='twice'), o5, o,
+                        order, 'two print/parse round trips')
+            spaced = e.replace('(', ' ( ').replace(')', ' )  ') \
+                .replace('&', '  &\t').replace('|', ' |  ')
+            spaced = spaced.lstrip()
+            o6 = OBDD(spaced + '  ', list(order))
+            check_equal('c18.lambda', dict(case, spaced=spaced), o6, o,
+                        order, 'blanks do not matter')
+            o7 = OBDD('lambda  %s :  ( %s )' % (' , '.join(order), e))
+            check_equal('c18.lambda', dict(case, lam='spaced lambda'), o7, o,
+                        order, 'blanks in the lambda form do not matter')
     except Exception as ex:
         LOG.hit('c18.print_obdd')
         LOG.violation('c18.print_obdd', PROP, dict(case, printed=sobdd),
@@ -343,9 +357,13 @@ def run(ctx):
                 for o in orders:
                     drive(t, o, i)
         i += 1
-    V4 = ['v1', 'v2', 'x_3', 'd']
+    NAMESETS = [['v1', 'v2', 'x_3', 'd'], ['A', 'B', 'X', 'E'],
+                ['a', 'ab', 'abc', 'b'], ['true', 'false', 'TRUE', 'True_'],
+                ['_', '__x', 'x1', 'x10'], ['p', 'P', 'q0', 'Q_0'],
+                ['lambda_', 'not_', 'and_', 'or_']]
     nrand = 24000 if ctx.quick else 200000
     for k in range(nrand):
+        V4 = NAMESETS[k % len(NAMESETS)]
         nv = r.randint(1, 4)
         vs = r.sample(V4, nv)
         t = random_expr(r, r.randint(2, 4), vs)
